@@ -143,14 +143,20 @@ func (p *Plugin) getCommitReportsObservation(
 		return exectypes.Observation{}, err
 	}
 
-	// Remove cursed observations.
-	for chainSelector, isCursed := range ci.CursedSourceChains {
-		if isCursed {
-			delete(groupedCommits, chainSelector)
+	// Keep the known, non-cursed sources only: curse info was requested for the known sources, nothing is known
+	// about the curse state of any other chain (and its reports could not be executed anyway).
+	knownSources, err := p.chainSupport.KnownSourceChainsSlice()
+	if err != nil {
+		return observation, nil
+	}
+	keptCommits := make(exectypes.CommitObservations, len(groupedCommits))
+	for _, chainSelector := range knownSources {
+		if reports, ok := groupedCommits[chainSelector]; ok && !ci.CursedSourceChains[chainSelector] {
+			keptCommits[chainSelector] = reports
 		}
 	}
 
-	observation.CommitReports = groupedCommits
+	observation.CommitReports = keptCommits
 
 	// TODO: truncate grouped to a maximum observation size?
 	return observation, nil
